@@ -222,6 +222,8 @@ class ZeroLinearOperator(LinearOperator):
         self: Float[LinearOperator, "*batch M N"],
         other: Union[float, Float[Tensor, "*batch2 M N"], Float[LinearOperator, "*batch2 M N"]],
     ) -> Float[LinearOperator, "... M N"]:
+        if not (torch.is_tensor(other) or isinstance(other, LinearOperator)):
+            return self  # a python scalar
         shape = torch.broadcast_shapes(self.shape, other.shape)
         return self.__class__(*shape, dtype=self._dtype, device=self._device)
 
@@ -248,4 +250,9 @@ class ZeroLinearOperator(LinearOperator):
         self: Float[LinearOperator, "... #M #N"],
         other: Union[Float[Tensor, "... #M #N"], Float[LinearOperator, "... #M #N"], float],
     ) -> Union[Float[LinearOperator, "... M N"], Float[Tensor, "... M N"]]:
+        if isinstance(other, (Tensor, LinearOperator)) and other.shape != self.shape:
+            # zero + other has the broadcast shape of both operands
+            shape = torch.broadcast_shapes(self.shape, other.shape)
+            if other.shape != shape:
+                return other.expand(*shape)
         return other
